@@ -11,7 +11,14 @@ def _h(name, flags, quick, thorough):
 PROP = {
     "lean_targets": ["MultiProofs.C18"],
     "lean_module": "MultiProofs.C18",
-    "theorems": [],
+    "theorems": [
+        "Multi.C18.message_typemap",
+        "Multi.C18.pack_unpack_kth",
+        "Multi.C18.types_committed_and_freed_once",
+        "Multi.C18.ofElements_spec",
+        "Multi.Mpi.build_spec",
+        "Multi.Mpi.message_disps",
+    ],
     "harnesses": [_h("mpi_int", ["-O1", "-g"], 16000, 640000), _h("mpi_double", ["-O1", "-g", "-DHARNESS_T=double"], 8000, 320000)],
     "trusted_base": TRUSTED_COMMON + [
         "MPI-4.0 typemap semantics of MPI_Type_create_hvector / create_resized / dup / commit / free and of (buf, count, datatype) messages, as transcribed in lean/MultiModel/Mpi.lean; validated against Open MPI through MPI_Pack / MPI_Unpack on every run",
